@@ -180,14 +180,14 @@ func (c c06Call) String() string {
 }
 
 type c06Expect struct {
-	defined  bool
-	wantErr  bool
-	notFound bool        // the error must be of the not-found kind
-	value    interface{} // bool, int64, []byte, string, []string (compared as sets)
-	filesOnly bool       // LsRecursive: compare the file members only
-	allowed  []string    // path prefixes that may change
-	srcKeep  []string    // subtrees that must stay unchanged
-	mutates  bool
+	defined   bool
+	wantErr   bool
+	notFound  bool        // the error must be of the not-found kind
+	value     interface{} // bool, int64, []byte, string, []string (compared as sets)
+	filesOnly bool        // LsRecursive: compare the file members only
+	allowed   []string    // path prefixes that may change
+	srcKeep   []string    // subtrees that must stay unchanged
+	mutates   bool
 	// missingParent: the call creates an entry whose parent directory does not exist. POSIX and the
 	// OS backend refuse; afero.MemMapFs creates the missing directories implicitly (known divergence).
 	missingParent bool
@@ -537,17 +537,17 @@ func (m fsModel) model(c c06Call) c06Expect {
 }
 
 type c06World struct {
-	name    string
-	seam    *Seam
-	vfs     filesystem.FS
-	cleanup func()
-	back    interface{}
-	budget  int
-	opsCall int
-	over    bool
-	failAt  int // fail the k-th operation of the current call with EIO (-1 never)
+	name     string
+	seam     *Seam
+	vfs      filesystem.FS
+	cleanup  func()
+	back     interface{}
+	budget   int
+	opsCall  int
+	over     bool
+	failAt   int // fail the k-th operation of the current call with EIO (-1 never)
 	cancelAt int
-	cancel  context.CancelFunc
+	cancel   context.CancelFunc
 }
 
 func newC06World(b fsBackend) *c06World {
